@@ -86,7 +86,7 @@ class Engine:
             for name, d in self.gdir.items():
                 jobs[name] = ex.submit(ctx.cc, [os.path.join(hdir, 'buf_check.c')] + objs, os.path.join(d, 'buf_check'),
                                        san=True, defs=['-DNDEBUG'], incs=['-I' + hdir, '-I' + d])
-                if self.with_gen_api:
+                if self.with_gen_api is True or (self.with_gen_api and name in self.with_gen_api):     # True: every schema; a set: those schemas
                     # -fno-sanitize=alignment: the generated builder writes structs with force_align > 8 through pointers into the builder's
                     # data stack, which is only 8-aligned (reported once by the dedicated probe in checks/c03.py, key
                     # generated-builder-misaligned-struct-access); without this every case with such a struct would only repeat that report
@@ -424,14 +424,21 @@ class Engine:
         ctx = self.ctx
         LIM = 65531                                    # largest data size: 4 + 65531 = 65535
         recs = []
-        for i in range(count):
-            kind = ['inline', 'offset'][i % 2]
-            sz, al = (4, 4) if kind == 'offset' else rng.choice([(1, 1), (2, 2), (4, 4), (8, 8), (100, 1), (100, 4), (24, 8), (3000, 2)])
-            delta = [0, 1, -1, 2, -2, 3, -3, 4, 5, -4, 8, -8, 64, -64, 4469, 65536 + 17][(i // 2) % 16]
-            pos = LIM + delta - sz; pos -= pos % al       # where the crossing field goes: it ends at (or, aligned down, just below) LIM + delta
-            before = pos - rng.randrange(al)              # padding in front of it
+        # sweep: a 1 / 2 / 4 byte inline field or an offset field at EVERY inline offset 65520..65540 it can be aligned to, after big blocks
+        sweep = [(kind, sz, pos) for pos in range(65520, 65541) for kind, sz in (('inline', 1), ('inline', 2), ('inline', 4), ('offset', 4)) if pos % sz == 0]
+        if not ctx.thorough: sweep = [x for x in sweep if x[2] + x[1] >= LIM - 3]      # quick: the ends 65528..; thorough: all
+        for i in range(len(sweep) + count):
+            if i < len(sweep):
+                kind, sz, pos = sweep[i]; al = sz
+                before, chunk = pos, rng.choice([4096, 4096, 8000])
+            else:
+                kind = ['inline', 'offset'][i % 2]
+                sz, al = (4, 4) if kind == 'offset' else rng.choice([(1, 1), (2, 2), (4, 4), (8, 8), (100, 1), (100, 4), (24, 8), (3000, 2)])
+                delta = [0, 1, -1, 2, -2, 3, -3, 4, 5, -4, 8, -8, 64, -64, 4469, 65536 + 17][(i // 2) % 16]
+                pos = LIM + delta - sz; pos -= pos % al       # where the crossing field goes: it ends at (or, aligned down, just below) LIM + delta
+                before = pos - rng.randrange(al)              # padding in front of it
+                chunk = rng.choice([100, 1000, 4000, 8000])
             fields, off, fid = [], 0, 0                 # (id, 'i', size, align, bytes) | (id, 'o')
-            chunk = rng.choice([100, 1000, 4000, 8000])
             while off + chunk <= before - 16:
                 fields.append((fid, 'i', chunk, 1, bytes([fid % 251 + 1]) * chunk)); off += chunk; fid += 1
             if before - off > 0:
@@ -439,7 +446,7 @@ class Engine:
                 fields.append((fid, 'i', r, 1, bytes([0xEE]) * r)); off += r; fid += 1
             crossing = fid
             fields.append((fid, 'i', sz, al, bytes(rng.randrange(1, 256) for _ in range(sz))) if kind == 'inline' else (fid, 'o')); fid += 1
-            for k in range(rng.choice([0, 0, 1, 3])):   # more fields after the one that crosses
+            for k in range(rng.choice([0, 0, 1, 3]) if i >= len(sweep) or i % 3 == 0 else 0):   # more fields after the one that crosses
                 fields.append((fid, 'i', 4, 4, rng.randrange(1 << 32).to_bytes(4, 'little')) if rng.random() < 0.6 else (fid, 'o')); fid += 1
             # layout as the format defines it (independent of model and C): running offset, align up, add
             off = 0
